@@ -88,17 +88,16 @@ theorem exOr_logicModel : LogicModel (exOr : Model (Ext K)) (exOr : Model (Ext K
     simp [varsOf, varsOfList] at hy
     rcases hy with rfl | rfl; exacts [sa, sb]
   refine ⟨⟨by intro y hy; simp [exOr, varsOf] at hy; subst hy; exact sa, by simp [FinE, exOr, finiteLits],
-    fun ρ _ => by simp [exOr, LogicOperands01], fun ρ _ => ⟨ρ "a", by simp [exOr, eval]⟩⟩, ?_⟩
+    fun ρ _ => by simp [exOr, NC]⟩, ?_⟩
   intro c hc
   simp only [exOr, List.mem_singleton] at hc
   subst hc
-  refine ⟨⟨hvars, by simp [FinE, exOrC, finiteLits, finiteLitsL], ?_, ?_⟩,
-    ⟨by simp [exOrC, varsOf], by simp [FinE, exOrC, finiteLits, isFin], fun ρ _ => by simp [exOrC, LogicOperands01],
-      fun ρ _ => ⟨1, by simp [exOrC, eval]⟩⟩⟩
-  · exact loOn_of_operandsOK hnd (by simp [exOrC, operandsOK, operandsOKList, isLogicValue, isBoolVar, domainType, exOr])
-      hvars
-  · intro ρ _
-    exact ⟨_, eval_or_of (vs := [ρ "a", ρ "b"]) (by simp [evalList, eval])⟩
+  refine ⟨⟨hvars, by simp [FinE, exOrC, finiteLits, finiteLitsL], ?_⟩,
+    ⟨by simp [exOrC, varsOf], by simp [FinE, exOrC, finiteLits, isFin], fun ρ _ => by simp [exOrC, NC]⟩⟩
+  · have hdef : DefOn (exOr : Model (Ext K)).domain (.or [.var "a", .var "b"]) := fun ρ _ =>
+      ⟨_, eval_or_of (vs := [ρ "a", ρ "b"]) (by simp [evalList, eval])⟩
+    exact NCon.ofLO (loOn_of_operandsOK hnd
+      (by simp [exOrC, operandsOK, operandsOKList, isLogicValue, isBoolVar, domainType, exOr]) hvars) hdef
 
 theorem exOr_domRel : DomRel (exOr : Model (Ext K)) (exOr : Model (Ext K)).domain :=
   ⟨by simp [exOr], fun _ h => h, fun ρ h => ((srcFeasible_iff _ ρ).mp h).2, fun dv hdv hu => ⟨dv, hdv, rfl, hu⟩⟩
@@ -205,7 +204,7 @@ theorem lo_needed :
       (ρ : String → K),
       linearizeWith m b d = .ok lm ∧ DomRel m d ∧ BoxEnforced b d ∧
       (∀ c ∈ m.constraints, (∀ y, (y ∈ varsOf c.lhs ∨ y ∈ varsOf c.rhs) → inScope d y) ∧ FinE c.lhs ∧ FinE c.rhs ∧
-        DefOn d c.lhs ∧ DefOn d c.rhs ∧ LOon d c.rhs) ∧
+        DefOn d c.lhs ∧ DefOn d c.rhs ∧ NCon d c.rhs) ∧
       GoodE d m.objective ∧
       linFeasible lm ρ = true ∧ ∀ ρ' : String → K, ¬ srcFeasible m ρ' = true := by
   have sx : inScope (exAndOne : Model (Ext K)).domain "x" :=
@@ -217,13 +216,13 @@ theorem lo_needed :
     simp only [exAndOne, List.mem_singleton] at hc
     subst hc
     refine ⟨?_, by simp [FinE, exAndOneC, finiteLits, finiteLitsL, isFin], by simp [FinE, exAndOneC, finiteLits, isFin],
-      ?_, fun ρ _ => ⟨3, by simp [exAndOneC, eval]⟩, fun ρ _ => by simp [exAndOneC, LogicOperands01]⟩
+      ?_, fun ρ _ => ⟨3, by simp [exAndOneC, eval]⟩, fun ρ _ => by simp [exAndOneC, NC]⟩
     · intro y hy
       simp [exAndOneC, varsOf, varsOfList] at hy
       subst hy; exact sx
     · intro ρ _
       exact ⟨_, eval_and_of (vs := [ρ "x", 1]) (by simp [exAndOneC, evalList, eval])⟩
   · exact ⟨by intro y hy; simp [exAndOne, varsOf] at hy; subst hy; exact sx, by simp [FinE, exAndOne, finiteLits],
-      fun ρ _ => by simp [exAndOne, LogicOperands01], fun ρ _ => ⟨ρ "x", by simp [exAndOne, eval]⟩⟩
+      fun ρ _ => by simp [exAndOne, NC], fun ρ _ => ⟨ρ "x", by simp [exAndOne, eval]⟩⟩
 
 end Rooc.LinP
